@@ -71,6 +71,20 @@ def py_new_batch(nb):
         records=tuple(py_record(r) for r in nb["records"]), attributes=nb["attributes"])
 
 
+def nb_to_json(nb):
+    def b(x):
+        return None if x is None else x.hex()
+    return {k: v for k, v in nb.items() if k != "records"} | {"records": [
+        dict(r, key=b(r["key"]), value=b(r["value"]), headers=[[b(k), b(v)] for k, v in r["headers"]]) for r in nb["records"]]}
+
+
+def nb_from_json(j):
+    def b(x):
+        return None if x is None else bytes.fromhex(x)
+    return {k: v for k, v in j.items() if k != "records"} | {"records": [
+        dict(r, key=b(r["key"]), value=b(r["value"]), headers=[(b(k), b(v)) for k, v in r["headers"]]) for r in j["records"]]}
+
+
 def abs_batch(b):
     return {k: int(getattr(b, k)) for k in (
         "base_offset", "batch_length", "partition_leader_epoch", "crc", "attributes", "last_offset_delta",
